@@ -28,6 +28,7 @@ import (
 	"github.com/grafana/carbon-relay-ng/badmetrics"
 	"github.com/grafana/carbon-relay-ng/cfg"
 	"github.com/grafana/carbon-relay-ng/matcher"
+	"github.com/grafana/carbon-relay-ng/rewriter"
 	"github.com/grafana/carbon-relay-ng/stats"
 	"github.com/grafana/carbon-relay-ng/table"
 	log "github.com/sirupsen/logrus"
@@ -591,7 +592,7 @@ func runBatch(c *combo, items func(i int) (item, bool), single int) {
 // ---------------------------------------------------------------------------
 
 // gateOrder: see phase 4 in main.
-func gateOrder(c *combo, names []nameT, shapes []shape, verd [][6]ref.ValVerdict, orderOn bool) {
+func gateOrder(c *combo, names []nameT, shapes []shape, verd [][6]ref.ValVerdict, orderOn bool, reconf bool) {
 	config := cfg.NewConfig()
 	doc := c.toml()
 	if orderOn {
@@ -605,13 +606,59 @@ func gateOrder(c *combo, names []nameT, shapes []shape, verd [][6]ref.ValVerdict
 		panic(err)
 	}
 	t := table.New(tc)
-	if !orderOn {
+	if !orderOn && !reconf {
 		all := matcher.Matcher{}
 		t.AddBlacklist(&all)
 	}
 	route := harn.NewCapture("all", matcher.Matcher{})
 	t.AddRoute(route)
+	if reconf {
+		// the table is changed at run time before the lines flow: one entry of every kind is added and
+		// deleted again (admin commands / http api); the levels written in the file still apply
+		t.AddRoute(harn.NewCapture("tmp", matcher.Matcher{}))
+		bl := harn.MustMatcher("zz", "", "", "", "", "")
+		t.AddBlacklist(&bl)
+		rw, err := rewriter.New("zz", "zy", "", -1)
+		if err != nil {
+			panic(err)
+		}
+		t.AddRewriter(rw)
+		ag, err := aggregator.NewMocked("count", harn.MustMatcher("", "", "", "", "^zz(.*)$", ""), "$1", false, 1, 5, false, make(chan []byte, 10), 10, func() time.Time { return aggNow }, make(chan time.Time))
+		if err != nil {
+			panic(err)
+		}
+		t.AddAggregator(ag)
+		for _, e := range []error{t.DelAggregator(0), t.DelRewriter(0), t.DelBlacklist(0), t.DelRoute("tmp")} {
+			if e != nil {
+				panic("run-time delete failed: " + e.Error())
+			}
+		}
+	}
 	check := func(line []byte, jl ref.ValLineVerdict) {
+		if reconf {
+			in0, inv0, oth0 := cIn.Count(), cInvalid.Count(), cOOO.Count()+cBlack.Count()+cUnroutable.Count()
+			n0 := len(route.Lines)
+			var pan interface{}
+			func() {
+				defer func() { pan = recover() }()
+				t.Dispatch(append([]byte(nil), line...))
+			}()
+			dIn, dInv, dOth := cIn.Count()-in0, cInvalid.Count()-inv0, cOOO.Count()+cBlack.Count()+cUnroutable.Count()-oth0
+			fwd := int64(len(route.Lines) - n0)
+			st.evals++
+			st.gateOrder++
+			switch {
+			case pan != nil:
+				fail("panic", c, line, fmt.Sprintf("Table.Dispatch panicked on a table changed at run time: %v", pan))
+			case dIn != 1 || dOth != 0 || dInv+fwd != 1:
+				fail("reconf-counters", c, line, fmt.Sprintf("table changed at run time (entries added and deleted again): in %+d invalid %+d forwarded %d other %+d; exactly one of invalid / forwarded must account for the line", dIn, dInv, fwd, dOth))
+			case jl.Claimed && !jl.Valid && dInv != 1:
+				fail("reconf-invalid-forwarded", c, line, fmt.Sprintf("invalid (%s) at the configured levels but forwarded after entries were added to and deleted from the table at run time", jl.Reason))
+			case jl.Claimed && jl.Valid && dInv != 0:
+				fail("reconf-valid-rejected", c, line, "valid at the configured levels but counted invalid after entries were added to and deleted from the table at run time: the levels of the configuration file no longer apply")
+			}
+			return
+		}
 		if orderOn {
 			// order validation is a later, optional stage: a line that fails validation is counted invalid
 			// (never out-of-order); a valid line is forwarded or, when its name was seen with this
@@ -849,8 +896,9 @@ phases:
 	// the names up to tokFull tokens, plus the lines without a name part.
 	if exhaustive {
 		for _, c := range combos[:6] {
-			gateOrder(c, names[:nFull], mshapes, verd, false)
-			gateOrder(c, names[:nFull], mshapes, verd, true)
+			gateOrder(c, names[:nFull], mshapes, verd, false, false)
+			gateOrder(c, names[:nFull], mshapes, verd, true, false)
+			gateOrder(c, names[:nFull], mshapes, verd, false, true)
 		}
 	}
 	// Probes: what the relay does with representative names of the open
